@@ -37,6 +37,8 @@ def main():
             keys = [ln.strip()[:260] for ln in p.stdout.splitlines() if ln.startswith("  key=")]
             out[c] = {"rc": p.returncode, "violations": len(viol), "first": keys[:2], "wall": round(time.time() - t, 1),
                       "stderr": p.stderr[-300:] if p.returncode == 2 else ""}
+            if p.returncode == 1 and os.environ.get("EVAL_STOP_AT_FIRST") == "1":
+                break  # the remaining checks were not run (recorded as such by their absence)
     finally:
         subprocess.run(["git", "-C", "/repo", "checkout", "--", "."], check=True)
         subprocess.run(["rm", "-rf", "/dev/shm/drfverif-mutant-evidence", "/dev/shm/drfverif-mutant-replays"])
